@@ -1,12 +1,45 @@
-"""Fan work out over processes (fork; the library is imported in the parent)."""
+"""Fan work out over processes (fork; the library is imported in the parent).
+
+An exception raised inside the library under test (innermost frame under
+VERIF_REPO) while the harness calls it with in-domain arguments is not a
+machinery failure: it is reported as LibraryRaised and becomes a VIOLATION
+(clause InDomainNoException) in core.main."""
 import multiprocessing as mp
 import os
+import sys
+import traceback
 
 _F = None
+REPO = os.path.realpath(os.environ.get("VERIF_REPO", "/repo"))
+
+
+class LibraryRaised(Exception):
+    def __init__(self, tb, item=None):
+        Exception.__init__(self, tb)
+        self.tb = tb
+        self.item = item
+
+
+def innermost_in_repo(tb):
+    """True if the innermost frame that belongs to either the harness or the
+    library under test is a library frame (frames of numpy/scipy/stdlib called
+    from there are skipped)."""
+    here = os.path.dirname(os.path.realpath(__file__)) + os.sep
+    for fr in reversed(traceback.extract_tb(tb)):
+        fn = os.path.realpath(fr.filename)
+        if fn.startswith(REPO + os.sep):
+            return True
+        if fn.startswith(here):
+            return False
+    return False
 
 
 def _call(args):
-    return _F(args)
+    try:
+        return _F(args)
+    except Exception:
+        et, ev, tb = sys.exc_info()
+        return ("__exc__", "".join(traceback.format_exception(et, ev, tb)), innermost_in_repo(tb))
 
 
 def pmap(fn, items, procs=None, chunk=None):
@@ -15,9 +48,16 @@ def pmap(fn, items, procs=None, chunk=None):
     if not items:
         return []
     procs = procs or min(16, os.cpu_count() or 1, max(1, len(items)))
-    if procs == 1 or len(items) < 4:
-        return [fn(a) for a in items]
     _F = fn
-    ctx = mp.get_context("fork")
-    with ctx.Pool(procs) as pool:
-        return pool.map(_call, items, chunksize=chunk or max(1, len(items) // (procs * 8)))
+    if procs == 1 or len(items) < 4:
+        out = [_call(a) for a in items]
+    else:
+        ctx = mp.get_context("fork")
+        with ctx.Pool(procs) as pool:
+            out = pool.map(_call, items, chunksize=chunk or max(1, len(items) // (procs * 8)))
+    for a, r in zip(items, out):
+        if isinstance(r, tuple) and len(r) == 3 and r[0] == "__exc__":
+            if r[2]:
+                raise LibraryRaised(r[1], repr(a)[:2000])
+            raise RuntimeError("harness exception in worker:\n" + r[1])
+    return out
